@@ -89,7 +89,7 @@ func c08Vals(d ref.DT, n int, vs string) []interface{} {
 
 func runC08(r *core.Run) {
 	quick := isQuick(r)
-	shapes := ref.DedupShapes(append(ref.ShapesUpTo(1, 3, 3), [][]int{{2, 2, 2, 2}, {2, 1, 2, 3}, {2, 3, 4}, {4, 3}, {5}, {1, 4}, {4, 1}, {3, 2, 1, 2}}...))
+	shapes := ref.DedupShapes(append(ref.ShapesUpTo(1, 3, 3), [][]int{{2, 2, 2, 2}, {2, 1, 2, 3}, {2, 3, 4}, {4, 3}, {5}, {1, 4}, {4, 1}, {3, 2, 1, 2}, {2, 3, 4, 5}, {2, 2, 3, 2}}...))
 	if !quick {
 		shapes = ref.DedupShapes(append(ref.ShapesUpTo(1, 3, 4), append(ref.Shapes(4, 2), [][]int{{2, 1, 2, 3}, {2, 3, 4, 5}, {3, 3, 3, 3}, {5}, {1, 4}, {4, 1}, {3, 2, 1, 2}, {5, 5}}...)...))
 	}
